@@ -472,7 +472,7 @@ var (
 	eVals   = []string{"x", "y", "xy", "X", "1", "2", "10", "", " x ", "%78", "x\x00", "%2578", "%252578", "10.1.2.3", "192.168.1.7", "1.2.3.4"} // double encodings: urlDecode is not idempotent
 	eTxKeys = []string{"s", "n", "k", "S", "1"}                                                            // TX.1 exists from the start and is empty (capture slot)
 	eMapVar = []string{"ARGS_GET", "ARGS_POST", "ARGS", "REQUEST_HEADERS", "TX", "ARGS_NAMES", "ARGS_GET_NAMES", "ARGS_POST_NAMES", "REQUEST_HEADERS_NAMES", "MATCHED_VARS", "MATCHED_VARS_NAMES"}
-	eOps    = []string{"streq", "contains", "beginsWith", "endsWith", "within", "eq", "ge", "gt", "le", "lt", "pm", "unconditionalMatch", "noMatch", "ipMatch"}
+	eOps    = []string{"streq", "contains", "beginsWith", "endsWith", "within", "eq", "ge", "gt", "le", "lt", "pm", "unconditionalMatch", "noMatch", "ipMatch", "rx"}
 	eTfs    = []string{"lowercase", "uppercase", "trim", "urlDecode", "removeNulls", "hexEncode", "length", "trimLeft", "urlEncode"}
 	// regex keys (`VAR:/re/`, `!VAR:/re/`, ctl …;VAR:/re/) over the key vocabulary; all inside the
 	// fragment of lean/Coraza/Model/Regex.lean; upper-case letters and \D \W \S because the code
@@ -540,6 +540,8 @@ func genLink(r *gen.R, p engProfile, first, prevDet bool, ruleIDs []int) (eLink,
 		op.A = gen.Field(r.Pick("0", "1", "2", "10"))
 	case "pm":
 		op.A = gen.Field(r.Pick("x y", "xy", "X 10", "ab  x"))
+	case "rx":
+		op.A = gen.Field(r.Pick("x", "^x", "y$", "^xy$", "[0-9]+", "^\\d+$", "x|1", "(?i)^X", "\\bx\\b", "^$", ".", "x.y", "^[a-z ]+$", "a{2}", "%78", "\\x00"))
 	case "ipMatch":
 		// several networks: which entry matches depends on the value (the operator is shared by all transactions)
 		op.A = gen.Field(r.Pick("10.0.0.0/8,192.168.1.0/24,1.2.3.4", "192.168.1.0/24,10.0.0.0/8", "1.2.3.4,::1,10.1.0.0/16"))
@@ -548,7 +550,7 @@ func genLink(r *gen.R, p engProfile, first, prevDet bool, ruleIDs []int) (eLink,
 	default:
 		op.A = gen.Field(r.Pick("x", "y", "xy", "1", "a", "ARGS_GET:a"))
 	}
-	if det && op.N != "unconditionalMatch" && op.N != "noMatch" && op.N != "pm" && op.N != "ipMatch" && r.Chance(0.12) {
+	if det && op.N != "unconditionalMatch" && op.N != "noMatch" && op.N != "pm" && op.N != "ipMatch" && op.N != "rx" && r.Chance(0.12) {
 		op.A = gen.Field("%{tx." + r.Pick(eTxKeys...) + "}")
 	}
 	l.Op = op
